@@ -172,6 +172,18 @@ def tty_engine(run, tier, seed):
         run.samples.append({"engine": "tty", "note": "inner terminal with a real TTYFrontend attached to a random region; bytes per step compared with the model frontend"})
 
 
+def io_engine(run, tier, seed):
+    import lineengine
+    kinds = {1: "read loop", 3: "Terminal.Write", 4: "TeeBackend", 5: "Resize forwarding", 6: "PTY winsize"}
+
+    def describe(case, impl, model):
+        f = case.split()
+        k = int(f[0]) if f else 0
+        ia, ma = (impl + " ").split(" -1 ", 1)[-1].strip(), (model + " ").split(" -1 ", 1)[-1].strip()
+        return ("%s case [%s]: expected [%s] got [%s]" % (kinds.get(k, "kind %d" % k), case[:200], ma[:200], ia[:200]), (k, ma[:12] == ia[:12]))
+    lineengine.run_engine("io", [str(seed)] + ([] if tier == "thorough" else ["quick"]), describe, run, timeout=3000)
+
+
 PROPS = {
     "C01": {"tags": [2], "ppref": ("C01",), "batches": [
         B("hostile", 500, 20000, tags=[]), B("mixed", 300, 8000, tags=[]), B("hostile", 150, 4000, modes="1", tags=[])]},
@@ -196,6 +208,7 @@ PROPS = {
     "C13": {"tags": [], "ppref": ("C13",), "batches": [], "extra": [mouse_engine]},
     "C14": {"tags": [4], "ppref": ("C14",), "batches": [B("c14", 600, 15000), B("mixed", 200, 5000)]},
     "C15": {"tags": [], "ppref": ("C15",), "batches": [B("mixed", 150, 2000, tags=[])], "extra": [conc_engine]},
+    "C16": {"tags": [], "ppref": ("C16",), "batches": [], "extra": [io_engine]},
     "C17": {"tags": ALL, "ppref": ("C17",), "batches": [
         B("c17", 600, 15000, step=True, kinds_wanted=[7, 15])]},
     "C18": {"tags": SCREEN + [7], "ppref": ("C18",), "batches": [
